@@ -1,7 +1,7 @@
 SPECIFICATION Spec
 CONSTANT TerOnModelChange = FALSE
 CONSTANT CifChargeVerbatim = FALSE
-CONSTANT FullShapes = FALSE
+CONSTANT ShapeLevel = 0
 CONSTANT MaxAtoms = 3
 INVARIANT InvDomain
 INVARIANT InvReadBack
